@@ -34,7 +34,7 @@ func Load(repo string, patterns []string, overlay map[string][]byte) (*Engine, e
 		Mode:    packages.LoadAllSyntax | packages.NeedModule,
 		Dir:     repo,
 		Overlay: overlay,
-		Env:     append(os.Environ(), "GOFLAGS=-mod=mod", "GOPROXY=off", "GOSUMDB=off", "GOTOOLCHAIN=local", "CGO_ENABLED=0"),
+		Env:     append(os.Environ(), "GOFLAGS=-mod=readonly", "GOPROXY=off", "GOSUMDB=off", "GOTOOLCHAIN=local", "CGO_ENABLED=0"),
 	}
 	pkgs, err := packages.Load(cfg, patterns...)
 	if err != nil {
